@@ -216,7 +216,7 @@ pub fn do_step(rig: &ServerRig, step: &Value, rng: &mut Rng) -> Value {
         "shape": step["shape"].as_str().unwrap_or(""),
         "flags": b.flags, "size": b.size, "blen": b.body.len(), "nfds": fds.len(), "fdids": fdids,
         "args": b.args, "hv": hv, "sent": sent_ok, "seg": seg, "cut": cut, "fdseg": fdseg, "mlen": bytes.len(),
-        "res": res, "calls": calls, "ncalls": calls.len(),
+        "hang": res.starts_with("hang"), "res": res, "calls": calls, "ncalls": calls.len(),
         "out": msgs, "nout": msgs.len(), "out_extra": extra, "leftover": leftover, "eof": eof,
     })
 }
